@@ -25,7 +25,14 @@ func ruleCORSOptionPlumbing(c *Ctx, rule string) {
 	want := map[string]int{"Origins": 0, "AllowHeaders": 1, "ExposedHeaders": 2, "MaxAge": 3, "AllowCredentials": 4}
 	got := map[string]string{}
 	var at ssa.Instruction
-	an.AllInstrs(with, func(in ssa.Instruction) {
+	// the function that builds the option: WithCORS itself, or the helper it hands its arguments to in order
+	impl := with
+	for h := range ctorFamily(with) {
+		if h != with {
+			impl = h
+		}
+	}
+	an.AllInstrs(impl, func(in ssa.Instruction) {
 		mc, ok := in.(*ssa.MakeClosure)
 		if !ok {
 			return
@@ -62,7 +69,7 @@ func ruleCORSOptionPlumbing(c *Ctx, rule string) {
 						}
 					}
 					if par, isPar := b.(*ssa.Parameter); isPar {
-						for pi, p := range with.Params {
+						for pi, p := range impl.Params {
 							if p == par {
 								src = fmt.Sprintf("arg%d", pi)
 							}
@@ -95,6 +102,11 @@ func ruleCORSOptionPlumbing(c *Ctx, rule string) {
 		g := ""
 		for _, r := range an.Returns(f) {
 			g = c.O.Of(r.Results[0]).String()
+			for h := range ctorFamily(with) {
+				if h != with {
+					g = strings.Replace(g, "call<"+an.FuncKey(h)+">", "call<mux.WithCORS>", 1)
+				}
+			}
 			if g != sh.want {
 				good = false
 			}
@@ -371,4 +383,62 @@ func statusWrite(in ssa.Instruction, depth int) (w, status ssa.Value, ok bool) {
 		return nil, nil, false
 	}
 	return args[wi], args[si], true
+}
+
+// ctorFamily: base and the module helper it forwards to — base's only return is H(a1, …, an) with ai its i-th
+// parameter, or a copy of it (slices.Clone). The shorthands of an option may call either.
+func ctorFamily(base *ssa.Function) map[*ssa.Function]bool {
+	fam := map[*ssa.Function]bool{base: true}
+	if base == nil {
+		return fam
+	}
+	fromParam := func(v ssa.Value, p *ssa.Parameter) bool {
+		for i := 0; i < 3; i++ {
+			switch x := v.(type) {
+			case *ssa.Parameter:
+				return x == p
+			case *ssa.Call:
+				if strings.HasPrefix(an.CalleeName(&x.Call), "slices.Clone") && len(x.Call.Args) == 1 {
+					v = x.Call.Args[0]
+					continue
+				}
+				return false
+			case *ssa.UnOp:
+				if al, ok := x.X.(*ssa.Alloc); ok && x.Op == token.MUL {
+					return cellParam(al) == p
+				}
+				return false
+			case *ssa.Slice:
+				v = x.X // a variadic list re-sliced whole
+				continue
+			default:
+				return false
+			}
+		}
+		return false
+	}
+	for _, r := range an.Returns(base) {
+		if len(r.Results) != 1 {
+			return fam
+		}
+		v := an.ReturnValue(r, 0)
+		if ct, ok := v.(*ssa.ChangeType); ok {
+			v = ct.X
+		}
+		call, ok := v.(*ssa.Call)
+		if !ok {
+			return fam
+		}
+		h := an.StaticCallee(&call.Call)
+		if h == nil || !an.InModule(h) || len(call.Call.Args) != len(base.Params) {
+			return fam
+		}
+		for i, a := range call.Call.Args {
+			if !fromParam(a, base.Params[i]) {
+				return fam
+			}
+		}
+		fam[h] = true
+	}
+	return fam
 }
